@@ -27,6 +27,9 @@ func init() {
 			c.floor("WRONGVAR", 2)
 			c.runAxisTags("AXIS", c.libPkgs()[1:2], c.fileFilter("model2d/rasterize.go"))
 			c.floor("AXIS", 8)
+			// pixel vs. model units in the rasteriser (Scale = px/L, LineWidth = px)
+			c.runUnits("UNIT", c.libPkgs()[1:2], c.fileFilter("model2d/rasterize.go"))
+			c.floor("UNIT", 2)
 		},
 		SelfTest: []Mutation{
 			{Name: "dual contouring workers append to the shared interior list", File: "model3d/dc.go",
